@@ -7,6 +7,7 @@ import CfVerif.Proofs.C14
 import CfVerif.Proofs.C14Ow
 import CfVerif.Proofs.C14Lh
 import CfVerif.Proofs.C14Deck
+import CfVerif.Proofs.C14Misc
 namespace CfVerif.C14
 open CfVerif
 
@@ -102,6 +103,34 @@ theorem gen_deck_info : Gen.C14.deckVersionArgs = ["data[0:1]"] ∧ Gen.C14.deck
     Gen.C14.deckQueryRead = ["self", "self.INFO_SECTION_ADDRESS", "self.SIZE_OF_INFO_SECTION"] ∧
     Gen.C14.deckSizeOfInfoSection = Gen.C14.deckSizeOfVersion + Gen.C14.deckMaxNrOfDeckMemInfos * Gen.C14.deckSizeOfDeckMemInfo := by
   decide
+
+theorem gen_loco : Gen.C14.locoAnchorArgs = ["data"] ∧ Gen.C14.locoAnchorTargets = ["x", "y", "z", "self.is_valid"] ∧
+    Gen.C14.locoNewDataCompares = ["mem.id == self.id", "addr == LocoMemory.MEM_LOCO_INFO", "self.nr_of_anchors == 0",
+      "next_page < self.nr_of_anchors"] ∧
+    Gen.C14.locoNewDataAssigns = ["data[0]", "page + 1", "[AnchorData() for _ in range(self.nr_of_anchors)]"] ∧
+    Gen.C14.locoSetCall = ["self.anchor_data[page].set_from_mem_data(data)"] ∧ Gen.C14.locoRequestCalls = ["0", "next_page"] ∧
+    Gen.C14.locoRequestRead = ["self", "addr", "LocoMemory.MEM_LOCO_PAGE_LEN"] ∧
+    Gen.C14.locoUpdateRead = ["self", "LocoMemory.MEM_LOCO_INFO", "LocoMemory.MEM_LOCO_INFO_LEN"] := by decide
+theorem gen_loco2 : Gen.C14.loco2AnchorArgs = ["data"] ∧ Gen.C14.loco2AnchorTargets = ["x", "y", "z", "self.is_valid"] ∧
+    Gen.C14.loco2NewDataCompares = ["mem.id == self.id", "addr == LocoMemory2.ADR_ID_LIST", "addr == LocoMemory2.ADR_ACTIVE_ID_LIST"] ∧
+    Gen.C14.loco2IdListSrc = ["self.nr_of_anchors = data[0]",
+      "for i in range(self.nr_of_anchors):\n    self.anchor_ids.append(data[1 + i])", "self.ids_valid = True"] ∧
+    Gen.C14.loco2ActiveIdListSrc = ["count = data[0]", "for i in range(count):\n    self.active_anchor_ids.append(data[1 + i])",
+      "self.active_ids_valid = True"] ∧
+    Gen.C14.loco2AnchorSrc = ["anchor = AnchorData2()", "anchor.set_from_mem_data(data)", "self.anchor_data[id] = anchor",
+      "self._currently_fetching_index += 1"] ∧
+    Gen.C14.loco2AnchorCompares = ["self._currently_fetching_index < self.nr_of_anchors"] ∧
+    Gen.C14.loco2AnchorRequests = ["self.anchor_ids[self._currently_fetching_index]"] ∧
+    Gen.C14.loco2UpdateDataRequests = ["self.anchor_ids[self._currently_fetching_index]"] ∧
+    Gen.C14.loco2RequestRead = ["self", "addr", "LocoMemory2.PAGE_LEN"] ∧
+    Gen.C14.loco2IdListRead = ["self", "LocoMemory2.ADR_ID_LIST", "LocoMemory2.ID_LIST_LEN"] ∧
+    Gen.C14.loco2ActiveIdListRead = ["self", "LocoMemory2.ADR_ACTIVE_ID_LIST", "LocoMemory2.ID_LIST_LEN"] := by decide
+theorem gen_poly : Gen.C14.polyArgs = ["*self.x.values", "*self.y.values", "*self.z.values", "*self.yaw.values", "self.duration"] ∧
+    Gen.C14.trajWriteCall = ["self", "start_addr", "data"] ∧ Gen.C14.trajWriteAug = ["data += element.pack()"] := by decide
+theorem gen_led : Gen.C14.ledFilterSrc = "timing['time'] & 255 != 0 or led != 0 or extra != 0" ∧
+    Gen.C14.ledAug = ["data += [timing['time'] & 255, led >> 8, led & 255, extra]", "data += [0, 0, 0, 0]"] ∧
+    Gen.C14.ledWriteCall = ["self", "0", "bytearray(data)"] ∧
+    Gen.C14.ledLedSrc = "int(R5) << 11 | int(G6) << 5 | int(B5) << 0" := by decide
 
 /-! ## EEPROM radio configuration -/
 
@@ -312,6 +341,56 @@ example : (⟨true, true, false, true, false, false, true, false, true, 0xDEADBE
   intro b hb
   simp at hb
   rcases hb with rfl | rfl | rfl | rfl <;> decide
+
+/-! ## Loco positioning anchor lists -/
+
+/-- LocoMemory: for any device memory whose info byte holds the number of anchors and whose anchor pages
+(0x1000 + 0x100 * i, 13 bytes) hold the encoded anchors, `update()` delivers exactly those anchors, in order, valid. -/
+theorem loco_parse (m : Mem) (as : List Anchor) (hn : as.length < 256)
+    (h0 : m.read 0 1 = [UInt8.ofNat as.length])
+    (hp : ∀ i (h : i < as.length), m.read (0x1000 + 0x100 * i) 13 = as[i].encode) (hw : ∀ a ∈ as, a.WF) :
+    locoUpdate m = .ok ⟨as.length, as, true⟩ := loco_parse_aux m as hn h0 hp hw
+
+/-- LocoMemory2 id lists: a list read as count byte, the ids, padding parses to exactly the ids. -/
+theorem loco2_id_list (m : Mem) (ids pad : List UInt8) (hn : ids.length < 256)
+    (h : m.read 0 17 = UInt8.ofNat ids.length :: (ids ++ pad)) : loco2IdList m = .ok (ids.map UInt8.toNat) :=
+  loco2_ids_aux _ ids pad h hn
+theorem loco2_active_id_list (m : Mem) (ids pad : List UInt8) (hn : ids.length < 256)
+    (h : m.read 0x1000 17 = UInt8.ofNat ids.length :: (ids ++ pad)) : loco2ActiveIdList m = .ok (ids.map UInt8.toNat) :=
+  loco2_ids_aux _ ids pad h hn
+
+/-- LocoMemory2 anchor data: the pages of the listed (distinct) ids are fetched and stored under exactly those ids. -/
+theorem loco2_anchor_data (m : Mem) (a : Nat → Anchor) (ids : List Nat) (hnd : ids.Nodup)
+    (hp : ∀ id ∈ ids, m.read (0x2000 + 0x100 * id) 13 = (a id).encode ∧ (a id).WF) :
+    loco2Fetch m ids [] = .ok (ids.map fun id => (id, a id)) := by
+  have := loco2Fetch_spec m a ids [] hp hnd (by simp)
+  simpa using this
+
+/-! ## Write-only images -/
+
+/-- `Poly4D.pack` produces the firmware's `struct poly4d`: 33 consecutive little-endian float32 (x, y, z, yaw
+coefficients, duration), 132 bytes, for all float32 contents. -/
+theorem poly4d_layout (x y z yaw : List Nat) (d : Nat) (hx : x.length = 8) (hy : y.length = 8) (hz : z.length = 8)
+    (hw : yaw.length = 8) (hv : ∀ v ∈ x ++ y ++ z ++ yaw ++ [d], v < 2 ^ 32) :
+    poly4dPack x y z yaw d = .ok (poly4dLayout x y z yaw d) ∧ (poly4dLayout x y z yaw d).length = 132 :=
+  poly4d_layout_aux x y z yaw d hx hy hz hw hv
+
+/-- LED timing image: the emitted records followed by the all-zero terminator; never an exception. -/
+theorem ledtiming_image (ts : List LedTiming) :
+    ledImage ts = .ok (((ts.map LedTiming.record).flatten ++ [0, 0, 0, 0]).map UInt8.ofNat) := ledImage_ok ts
+
+/-- LED timing record layout: duration byte, RGB565 big-endian (red bits 15..11, green 10..5, blue 4..0), then
+leds in bits 3..0, fade in bit 4, rotate in bits 7..5; an emitted record is never the terminator, and a timing is
+dropped only when its record would be all zero. -/
+theorem ledtiming_layout (t : LedTiming) :
+    ((t.record = [t.time % 256, t.word / 256, t.word % 256, t.extra] ∧ t.record ≠ [0, 0, 0, 0]) ∨
+     (t.record = [] ∧ t.time % 256 = 0 ∧ t.word = 0 ∧ t.extra = 0)) ∧
+    t.word = Gen.C14.ledR5 (t.r &&& 255) * 2048 + Gen.C14.ledG6 (t.g &&& 255) * 32 + Gen.C14.ledB5 (t.b &&& 255) ∧
+    Gen.C14.ledR5 (t.r &&& 255) < 32 ∧ Gen.C14.ledG6 (t.g &&& 255) < 64 ∧ Gen.C14.ledB5 (t.b &&& 255) < 32 ∧
+    t.extra = t.leds % 16 + 16 * (t.fade % 2) + 32 * (t.rotate % 8) :=
+  ⟨led_record_cases t, ledWord_eq _ _ _ (ledG6_lt _) (ledB5_lt _), ledR5_lt _, ledG6_lt _, ledB5_lt _, ledExtra_eq _ _ _⟩
+
+example : ledImage [⟨10, 255, 0, 128, 3, 1, 2⟩, ⟨0, 0, 0, 0, 0, 0, 0⟩] = .ok [10, 0xF8, 0x10, 0x53, 0, 0, 0, 0] := by decide
 
 example : i2cImage { version := 1, channel := 80, speed := 2, pitch := 0, roll := 0x3f800000, address := some 0xE7E7E7E7E7 } =
     .ok [48, 120, 66, 67, 1, 80, 2, 0, 0, 0, 0, 0, 0, 128, 63, 231, 231, 231, 231, 231, 194] := by decide
